@@ -9,6 +9,7 @@ package weshnet
 // index untouched and reach no subscriber.
 
 import (
+	"google.golang.org/protobuf/encoding/protowire"
 	"context"
 	crand "crypto/rand"
 	"fmt"
@@ -236,6 +237,53 @@ func (w *c03world) catalogue(typ protocoltypes.EventType, salt int) []*c03env {
 			r.Set(r.Descriptor().Fields().ByName("device_pk"), protoreflect.ValueOfBytes(w.d2.raw))
 		})
 	}
+	// a signer field TWICE on the wire (never written by proto.Marshal; the decoder keeps the last
+	// occurrence): the signature is by the key named first, the decoded event names the key given last
+	if !chkGroup {
+		dup := func(msg proto.Message, field string, last []byte) []byte {
+			p, _ := proto.Marshal(msg)
+			fd := msg.ProtoReflect().Descriptor().Fields().ByName(protoreflect.Name(field))
+			p = protowire.AppendTag(p, fd.Number(), protowire.BytesType)
+			return protowire.AppendBytes(p, last)
+		}
+		build("signer field twice on the wire: the signing key first, another device last", w.d2, w.d2, func(e *c03env, msg proto.Message) {
+			e.payload = dup(msg, "device_pk", w.d1.raw)
+			w.nextPayload++
+			e.payloadID = w.nextPayload
+		})
+		build("genuine event of another device, its signer field twice on the wire (another device first, its own key last)", w.d1, w.d2, func(e *c03env, msg proto.Message) {
+			e.payload = dup(msg, "device_pk", w.d2.raw)
+			w.nextPayload++
+			e.payloadID = w.nextPayload
+			if _, ok := msg.(*protocoltypes.GroupMemberDeviceAdded); ok {
+				// the member signature must then be over the device that is decoded
+				ms, _ := w.m1.sk.Sign(w.d2.raw)
+				msg.(*protocoltypes.GroupMemberDeviceAdded).MemberSig = ms
+				e.membersig = c03sig{by: w.m1.id, over: w.d2.id, raw: ms}
+				e.payload = dup(msg, "device_pk", w.d2.raw)
+			}
+		})
+		if chkMember {
+			build("member key twice on the wire: the signing member first, another member last", w.d1, w.d1, func(e *c03env, msg proto.Message) {
+				md := msg.(*protocoltypes.GroupMemberDeviceAdded)
+				md.MemberPk = w.m2.raw
+				ms, _ := w.m2.sk.Sign(w.d1.raw)
+				md.MemberSig = ms
+				e.membersig = c03sig{by: w.m2.id, over: w.d1.id, raw: ms}
+				e.payload = dup(msg, "member_pk", w.m1.raw)
+				w.nextPayload++
+				e.payloadID = w.nextPayload
+			})
+			build("member signature twice on the wire: a valid one first, another member's last", w.d1, w.d1, func(e *c03env, msg proto.Message) {
+				md := msg.(*protocoltypes.GroupMemberDeviceAdded)
+				ms, _ := w.m2.sk.Sign(w.d1.raw)
+				e.membersig = c03sig{by: w.m2.id, over: w.d1.id, raw: ms}
+				e.payload = dup(md, "member_sig", ms)
+				w.nextPayload++
+				e.payloadID = w.nextPayload
+			})
+		}
+	}
 	// payload bit flips under the original signature
 	for k := 0; k < 3; k++ {
 		k := k
@@ -455,7 +503,7 @@ func TestVerifC03(t *testing.T) {
 				for _, e := range cat {
 					_, _, err := openGroupEnvelope(g, e.raw)
 					accepted := err == nil
-					want := e.name == "honest" || e.name == "genuine event of another device"
+					want := e.name == "honest" || strings.HasPrefix(e.name, "genuine event of another device")
 					ok, note := true, ""
 					if accepted != want {
 						ok = false
